@@ -99,6 +99,17 @@ def verify_text(run, tier):
         base, fn = src, None
         if isinstance(src, LazyIter) and src.kind == 'map':
             base, fn = src.src, src.fn
+        elif isinstance(src, SymList) and isinstance(src.origin, tuple) and src.origin[0] == 'comp' and len(src.origin) >= 4 \
+                and len(src.origin[2].generators) == 1 and not src.origin[2].generators[0].ifs:
+            # a generator expression / list comprehension over the lines instead of map(): same element-wise stage
+            inner, inner_fr = src.origin[2], src.origin[3]
+            base = src.origin[1]
+
+            def mapped(it2, a, k, n2, inner=inner, inner_fr=inner_fr):
+                f3 = Frame(parent=inner_fr)
+                it2.assign(inner.generators[0].target, a[0], f3)
+                return it2.eval(inner.elt, f3)
+            fn = Builtin('comprehension-element', mapped)
         if not (isinstance(base, SymList) and base.origin == 'code-lines') or kind != 'dict':
             return None
         holder['comp'] = (node, g, base, fn, fr)
